@@ -30,6 +30,13 @@ def jobs(ctx, props):
         out.append((name + '/explicit', E[name], ['A', 'B'] if name == 'single' else ['A'],
                     props, {'reqs': 2, 'mode': 'explicit', 'max_workers': 2,
                             'outcomes': ('success', 'failure')}))
+    # a reload (FSM.load: notify_all, farm.clear, schedule.build) at any moment,
+    # with work queued for want of a worker: nothing of the old schedule may
+    # reach a worker afterwards ("work released since the last (re)load")
+    for name in ('single', 'chain2'):
+        out.append((name + '/explicit+reload', E[name], ['A'], props,
+                    {'reqs': 2, 'mode': 'explicit', 'max_workers': 1 if quick else 2, 'outcomes': ('success',),
+                     'revs': ('r1',), 'life': 'reload', 'max_life': 1 if quick else 2}))
     out += schedcheck.timer_jobs(props, quick)
     return out
 
